@@ -25,14 +25,14 @@ Depth == IF "VERIF_DEPTH" \in DOMAIN IOEnv THEN atoi(IOEnv.VERIF_DEPTH) ELSE 8
 Mode == IF "VERIF_DISCMODE" \in DOMAIN IOEnv THEN IOEnv.VERIF_DISCMODE ELSE "core"
 TopoSel == IF "VERIF_DISCTOPO" \in DOMAIN IOEnv THEN IOEnv.VERIF_DISCTOPO ELSE "all"
 
-Cnt0 == [drop |-> 0, dup |-> 0, local |-> 0, timeout |-> 0, init |-> 0, park |-> 0, inject |-> 0]
-Budget == CASE Mode = "core" -> [drop |-> 2, dup |-> 2, local |-> 0, timeout |-> 0, init |-> 2, park |-> 0, inject |-> 0]
-            [] Mode = "del" -> [drop |-> 1, dup |-> 1, local |-> 2, timeout |-> 0, init |-> 2, park |-> 0, inject |-> 0]
-            [] Mode = "late" -> [drop |-> 0, dup |-> 1, local |-> 1, timeout |-> 0, init |-> 1, park |-> 0, inject |-> 0]
-            [] Mode = "timeout" -> [drop |-> 2, dup |-> 0, local |-> 1, timeout |-> 2, init |-> 1, park |-> 0, inject |-> 0]
-            [] Mode = "forced" -> [drop |-> 0, dup |-> 1, local |-> 1, timeout |-> 0, init |-> 2, park |-> 1, inject |-> 0]
-            [] Mode = "mal" -> [drop |-> 1, dup |-> 0, local |-> 1, timeout |-> 0, init |-> 2, park |-> 0, inject |-> 2]
-            [] OTHER -> [drop |-> 2, dup |-> 1, local |-> 2, timeout |-> 1, init |-> 2, park |-> 1, inject |-> 0]
+Cnt0 == [drop |-> 0, dup |-> 0, local |-> 0, timeout |-> 0, init |-> 0, park |-> 0, inject |-> 0, retr |-> 0]
+Budget == CASE Mode = "core" -> [drop |-> 2, dup |-> 2, local |-> 0, timeout |-> 0, init |-> 2, park |-> 0, inject |-> 0, retr |-> 1]
+            [] Mode = "del" -> [drop |-> 1, dup |-> 1, local |-> 2, timeout |-> 0, init |-> 2, park |-> 0, inject |-> 0, retr |-> 2]
+            [] Mode = "late" -> [drop |-> 0, dup |-> 1, local |-> 1, timeout |-> 0, init |-> 1, park |-> 0, inject |-> 0, retr |-> 1]
+            [] Mode = "timeout" -> [drop |-> 2, dup |-> 0, local |-> 1, timeout |-> 2, init |-> 1, park |-> 0, inject |-> 0, retr |-> 0]
+            [] Mode = "forced" -> [drop |-> 0, dup |-> 1, local |-> 1, timeout |-> 0, init |-> 2, park |-> 1, inject |-> 0, retr |-> 1]
+            [] Mode = "mal" -> [drop |-> 0, dup |-> 0, local |-> 1, timeout |-> 0, init |-> 2, park |-> 0, inject |-> 1, retr |-> 1]
+            [] OTHER -> [drop |-> 2, dup |-> 1, local |-> 2, timeout |-> 1, init |-> 2, park |-> 1, inject |-> 0, retr |-> 2]
 Can(what) == cnt[what] < Budget[what]
 Used(what) == [cnt EXCEPT ![what] = @ + 1]
 
@@ -68,12 +68,15 @@ GInit == /\ Init
 
 \* rough effect of an injected message on the victim (only to keep the rest of the scenario meaningful)
 InjectEffect(s, me, shape, p) ==
-  IF shape \in {"resp_long_vector", "resp_key_not_hex", "resp_key_short_addr"}
-  THEN OnFind(s, me, "M", {"M"}, [ZeroV EXCEPT !["M"] = IdxOf(p.file)], p)
+  LET full(o) == [ZeroV EXCEPT ![o] = IdxOf(p.file)] IN
+  IF shape \in {"resp_long_vector", "resp_key_not_hex", "resp_key_short_addr", "resp_empty_target"}
+  THEN OnFind(s, me, "M", {"M"}, full("M"), p)
+  ELSE IF shape = "resp_self_target" THEN OnFind(s, me, me, {me}, full(me), p)
   ELSE IF shape = "resp_as_A"
   THEN OnFind(s, me, "A", {"A", "M"}, [ZeroV EXCEPT !["M"] = IdxOf(p.file), !["A"] = IdxOf(p.file)], p)
-  ELSE IF shape \in {"resp_short_vector", "resp_no_presence"}
-  THEN OnFind(s, me, "M", IF shape = "resp_no_presence" THEN {} ELSE {"M"}, ZeroV, p)
+  ELSE IF shape = "resp_short_vector"       \* the table entry is created, the vector is refused
+  THEN LET r == OnFind(s, me, "M", {}, ZeroV, p) IN R([r.s EXCEPT !.dkey = TRUE], r.out)
+  ELSE IF shape = "resp_no_presence" THEN OnFind(s, me, "M", {}, ZeroV, p)
   ELSE R(s, <<>>)
 
 GNext ==
@@ -95,6 +98,13 @@ GNext ==
           \/ /\ Can("timeout") /\ Alive(n) /\ Idle(n)
              /\ \E o \in Real : /\ o \in ns[n].trig
                                 /\ Step(n, R(Timeout(ns[n], o), <<>>), msgs, [op |-> "timeout", n |-> n, o |-> o], Used("timeout"))
+          \/ /\ Can("retr") /\ Alive(n) /\ Idle(n) /\ par.topo # "relay"
+             /\ \E c \in IdxOf(par.file) :
+                  /\ CanRetrieve(ns[n], n, c)
+                  /\ ns' = [ns EXCEPT ![n] = Retrieved(ns[n], n, c), !["A"] = Served(ns["A"], n, c)]
+                  /\ UNCHANGED <<par, msgs>>
+                  /\ hist' = Append(hist, [op |-> "retrieve", n |-> n, c |-> c] @@ WaitOf(n, Retrieved(ns[n], n, c)) @@ [hm |-> Len(msgs), ret |-> ""])
+                  /\ pre' = ns /\ cnt' = Used("retr")
           \/ /\ Can("inject") /\ Alive(n) /\ Idle(n)
              /\ \E sh \in Shapes : Step(n, InjectEffect(ns[n], n, sh, par), msgs, [op |-> "inject", n |-> n, shape |-> sh], Used("inject"))
      \/ \E i \in DOMAIN msgs : LET m == msgs[i] IN
